@@ -22,4 +22,15 @@ Dump ==
                        [format |-> "NDJSON", charset |-> "UTF-8",
                         openOptions |-> <<"WRITE", "CREATE", "APPEND">>])
     IN r = r
+
+\* C18: every scenario under every spelling of its statement (WHERE shape x parameter placement)
+Shapes == {"eq", "in", "between", "paren", "andtrue", "orderlimit", "not", "cmp"}
+PlacesS == {"bound", "literal", "setlit", "wherelit"}
+DumpShapes ==
+  Finished =>
+    \A sh \in Shapes, pl \in PlacesS :
+      LET r == Serialize(<<[init |-> snap0, steps |-> env, shape |-> sh, place |-> pl]>>, ScenFile,
+                         [format |-> "NDJSON", charset |-> "UTF-8",
+                          openOptions |-> <<"WRITE", "CREATE", "APPEND">>])
+      IN r = r
 =============================================================================
